@@ -290,6 +290,7 @@ static void pollute(GMGPolar& s, uint64_t seed)
 static Outcome runStartup(const KV& c)
 {
     Outcome o;
+    StdoutSilencer quiet(c.getI("verbose", 0) > 0);
     SolverCfg cfg     = SolverCfg::get(c);
     const int history = (int)c.getI("history", 0);
     cfg.fmg     = 1;
@@ -383,7 +384,7 @@ static Outcome runStartup(const KV& c)
             o.cls("history_bitwise_equal");
     }
     // (iv) discretisation-level accuracy of the start (>= 1 start-up cycle): compare with the converged solution's error
-    if (cfg.fmg_its >= 1 && GMGPolarVerifAccess::exact(*s) != nullptr && cfg.problem != 3) {
+    if (cfg.fmg_its >= 1 && GMGPolarVerifAccess::exact(*s) != nullptr && cfg.problem != 3 && cfg.grid_kind == 0) {
         const ExactSolution* ex = GMGPolarVerifAccess::exact(*s);
         const PolarGrid& g      = s->grid();
         double estart = 0;
@@ -488,6 +489,12 @@ static KV genCase()
             s.cache_geom = rbool();
         }
         s.via_cli = rint(0, 1);
+        s.verbose = rweighted({4, 1, 1});
+        if (rint(0, 5) == 0) {
+            s.grid_kind = rint(1, 5); // a grid loaded from files
+            s.div       = 0;
+            s.aniso     = 0;
+        }
         s.put(c);
         c.putI("history", rint(0, 3));
         c.putI("prev_its", rpick({2, 5, 40}));
